@@ -22,6 +22,7 @@ class Conn(object):
         self.sent_raw = bytearray()  # every byte written to the socket
         self.answered = set()
         self.tail_on_eof = None      # bytes to write when the client half-closes (the rest of a frame that was on its way)
+        self.stalled = False         # this side has stopped reading (a peer that hangs); kill() drops the connection then
         self.close_delay = 0         # seconds this side waits after the client's half-close before it closes too (a slow peer)
         self.seen = 0
         self.lock = threading.Lock()
@@ -40,6 +41,15 @@ class Conn(object):
             b = self.srv.encrypt(refcodec.encode_canonical(tree))
             self.sent_raw += b
             self.sock.sendall(b)
+
+    def kill(self):
+        """Drops the connection without reading what is still on its way (the client sees a reset)."""
+        import struct
+        try:
+            self.sock.setsockopt(socket.SOL_SOCKET, socket.SO_LINGER, struct.pack("ii", 1, 0))
+            self.sock.close()
+        except OSError:
+            pass
 
 
 class LoopServer(threading.Thread):
@@ -82,6 +92,9 @@ class LoopServer(threading.Thread):
     def serve(self, c):
         c.sock.settimeout(0.2)
         while not self.stop_flag:
+            if c.stalled:
+                time.sleep(0.01)
+                continue
             try:
                 if self.slow_reader and c.srv.state == "transport":
                     time.sleep(0.0004)
